@@ -150,6 +150,12 @@ def gen_groupdefs(rng, deep=False):
                 ents.append(("I", gen_re_refs(rng)))
             else:
                 ents.append(("X", gen_re_refs(rng)))
+        if ents and rng.random() < 0.15:
+            # the same (key, value) listed twice with a rule of the opposite effect in between (e.g. ~/.gitconfig and
+            # .git/config both carrying `include = refs/tags`): every entry counts, in order
+            ents += rng.choice([[("i", b"refs/tags"), ("x", b"refs/tags/v1"), ("i", b"refs/tags")],
+                                [("x", b"refs/heads/feature"), ("i", b"refs/heads"), ("x", b"refs/heads/feature")],
+                                [("i", b"refs/heads"), ("x", b"refs/heads/main"), ("i", b"refs/heads")]])
         if ents:
             defs.append((sym, ents))
             syms.append(sym)
